@@ -491,7 +491,7 @@ def r08_12(ctx, run, rule='R08.12'):
 
 
 def check(ctx, run):
-    run.rules_run = ['R08.1', 'R08.2', 'R08.3', 'R08.4', 'R08.5', 'R08.6', 'R08.7', 'R08.8', 'R08.9', 'R08.10', 'R08.11', 'R08.12']
+    run.rules_run = ['R08.1', 'R08.2', 'R08.3', 'R08.4', 'R08.5', 'R08.6', 'R08.7', 'R08.8', 'R08.9', 'R08.10', 'R08.11', 'R08.12', 'R08.13']
     cone = recursion.no_todo(ctx, run, 'R08.1', ROOTS, floor_roots=8)
     is_root = lambda body, base: deref_all(base)[0] in ('init',) and (body.name_of(deref_all(base)[1]) in ('root', 'input'))
     safety.panic_inventory(ctx, run, 'R08.2', ROOTS[:3], floor=15, trust_doc=is_root, only=lambda p: p.startswith('jsonpath::selector::'))
@@ -504,6 +504,9 @@ def check(ctx, run):
     recursion.rrec(ctx, run, 'R08.8', ROOTS[:3], {'path-expr', 'path-ast'}, 'recursion of the evaluator on the depth of the filter expression', floor=1)
     r08_9(ctx, run)
     r08_12(ctx, run)
+    # the items a path denotes do not depend on the result mode: the frontier walk must not consult it (R15.1)
+    from rules import c15 as _c15
+    _c15.mode_read(ctx, run, 'R08.13/R15.1')
     safety.forbidden_calls(ctx, run, 'R08.10', [SEL + 'select'], ('slice::sort', 'slice::sort_unstable', 'slice::sort_by', 'slice::sort_by_key', 'slice::sort_unstable_by', 'Vec::dedup',
                                                               'Vec::dedup_by', 'Vec::dedup_by_key', 'slice::reverse', 'Vec::retain', 'BTreeSet::insert', 'HashSet::insert'),
                            'the path evaluator', 'selected items must come out in the order the path lists them, repetitions included (`$[3, 0]`, `$[1, 1]`); reordering or de-duplicating positions changes the result',
